@@ -1,12 +1,14 @@
 #!/bin/sh
-# tools/mut_matrix.sh <jobs> <seed-id>...   — run each seeded change against the check of its own property
-# (scratch worktrees; results in /tmp/mutmatrix/<seed>.log; summary on stdout)
+# tools/mut_matrix.sh <jobs> <dir>...   — run each change (dir with patch.diff + meta.json) against the
+# check of its own property (meta.json "property"; or the Cxx prefix of the directory name).
+# Scratch worktrees only; logs in /tmp/mutmatrix/<name>.log; one summary line per change.
 JOBS=$1; shift
 mkdir -p /tmp/mutmatrix
 for s in "$@"; do echo $s; done | xargs -P "$JOBS" -I{} sh -c '
-  id=$(echo {} | cut -d- -f1)
-  MUT_SHOW_REPLAY=1 /verif/tools/mutcheck.sh /verif/seeded/{}/patch.diff $id > /tmp/mutmatrix/{}.log 2>&1
-  if grep -q "^VIOLATION" /tmp/mutmatrix/{}.log; then
-     n=$(grep -c "^VIOLATION" /tmp/mutmatrix/{}.log); nf=$(grep -c "no-failing-input-found" /tmp/mutmatrix/{}.log)
-     echo "{} CAUGHT violations=$n no-failing-input=$nf"
-  else echo "{} MISSED"; fi'
+  d=$(readlink -f {}); name=$(basename $d)
+  id=$(echo $name | grep -o "^C[0-9][0-9]")
+  MUT_SHOW_REPLAY=1 /verif/tools/mutcheck.sh $d/patch.diff $id > /tmp/mutmatrix/$name.log 2>&1
+  if grep -q "^VIOLATION" /tmp/mutmatrix/$name.log; then
+     n=$(grep -c "^VIOLATION" /tmp/mutmatrix/$name.log); nf=$(grep -c "no-failing-input-found" /tmp/mutmatrix/$name.log)
+     echo "$name CAUGHT violations=$n no-failing-input=$nf"
+  else echo "$name MISSED"; fi'
